@@ -921,6 +921,9 @@ class ConvertInstance:
             IdMap() if template is None else template
         )
 
+        # temporaries that are read by port maps of entity instantiations
+        self._port_temporaries = IdSet()
+
     def lookup_template(self, source: out.EntityTemplate) -> ir.EntityTemplate | None:
         if source in self._entity_templates:
             return self._entity_templates[source]
@@ -1052,8 +1055,9 @@ class ConvertInstance:
         search_invalid_temporaries(ctx.code())
 
     @staticmethod
-    def cleanup_unused(ctx: ir.Context):
+    def cleanup_unused(ctx: ir.Context, externally_used=()):
         used_temporaries = IdSet()
+        used_temporaries.update(externally_used)
 
         def find_used_temp(obj, access: AccessFlags):
             if access.is_read() and isinstance(obj, Temporary):
@@ -1148,6 +1152,10 @@ class ConvertInstance:
             if isinstance(inp, out.Entity):
                 template = self.apply(inp.template())
 
+                for actual in inp.port_definitions().values():
+                    if isinstance(actual, Temporary):
+                        self._port_temporaries.add(actual._root)
+
                 return ir.Entity(
                     template,
                     inp._info.name,
@@ -1185,7 +1193,9 @@ class ConvertInstance:
                 result.visit_referenced_objects(check_variables_and_temporaries)
 
                 if result.attributes.get("cleanup_unused", True):
-                    result = ConvertInstance.cleanup_unused(result)
+                    result = ConvertInstance.cleanup_unused(
+                        result, self._port_temporaries
+                    )
 
                 if result.attributes.get("zero_init_temporaries", False):
                     # only used for unit tests
@@ -1206,7 +1216,9 @@ class ConvertInstance:
                 ConvertInstance.detect_uninitialized_temporaries(result)
 
                 if result.attributes.get("cleanup_unused", True):
-                    result = ConvertInstance.cleanup_unused(result)
+                    result = ConvertInstance.cleanup_unused(
+                        result, self._port_temporaries
+                    )
                 if result.attributes.get("cleanup_bool_cast", True):
                     result = ConvertInstance.cleanup_bool_cast(result)
                 if result.attributes.get("zero_init_temporaries", False):
